@@ -185,6 +185,17 @@ theorem ring_verts_on_profile (rs : K → K) (start : K × K) (c s : K) (secs : 
     simp only [radSq, place]
     linear_combination (pt.x * pt.x) * hstart
 
+-- hypotheses satisfiable over ℚ: start azimuth (1,0), 3-4-5 step, one profile point with normal (1,0), rs = id
+example : ((1 : ℚ) * 1 + 0 * 0 = 1) ∧ ((3 : ℚ) / 5 * (3 / 5) + 4 / 5 * (4 / 5) = 1) ∧
+    (∀ pt ∈ [({ x := 2, y := -1, nx := 1, ny := 0 } : ProfilePoint ℚ)],
+      id (lenSq (place pt.nx pt.ny ((1 : ℚ), (0 : ℚ)))) * id (lenSq (place pt.nx pt.ny (1, 0))) *
+        lenSq (place pt.nx pt.ny (1, 0)) = 1) := by
+  refine ⟨by norm_num, by norm_num, ?_⟩
+  intro pt hpt
+  simp only [List.mem_cons, List.mem_nil_iff, or_false] at hpt
+  subst hpt
+  simp [lenSq, place]
+
 /-- **Side faces, every parameter.**  Take two consecutive profile points `A = (xa, ya)`,
 `B = (xb, yb)` and two consecutive azimuths `a`, `a' = step a` (`a` a unit vector; the step
 `(c, s)` arbitrary).  With `p = A@a`, `q = A@a'`, `r = B@a`, `s' = B@a'` (lathe.rs:119-122) the
@@ -246,6 +257,9 @@ theorem side_faces_same_side (c s xa ya xb yb nx ny : K) (a : K × K) (ha : a.1 
 example : (0 : ℚ) < 4 / 5 ∧ (0 : ℚ) < 2 * (1 - (-1)) - 0 * (1 - 1) := by norm_num
 
 end Ordered
+
+-- the grid hypotheses are satisfiable, e.g. the smallest sphere, torus and capsule
+example : (2 ≤ 2 ∧ 2 ≤ 12) ∧ (3 ≤ 3 ∧ 3 ≤ 12) ∧ (1 ≤ 1 ∧ 1 ≤ 3) ∧ (1 ≤ 1 ∧ 1 ≤ 4) := by omega
 
 /-! ### The Platonic tables (platonic.rs) -/
 
